@@ -45,16 +45,17 @@ def valTok (fmt : Bytes → Bytes) : Val → Bytes
   | .udaStr s => quoted s
   | .dummy => []
 
-/-- tokens the writer emits for the values of a record; `dc` = `default_count`.
+/-- tokens the writer emits for the values of a record; `dc` = `default_count`, `any` =
+an explicit value has been written in this record (`row_count > 0` at `end_record`).
 `flush`: what `end_record` does with defaults still pending — the translator reads it off
 DeckOutput.cpp (`Gen.RawConsts.outFlushPendingDefaults`): `false` = dropped, `true` =
-written as a final `n*`. -/
-def emitToks (fmt : Bytes → Bytes) (flush : Bool) : Nat → Vals → List Bytes
-  | dc, [] => if flush ∧ dc ≠ 0 then [starTok dc] else []
-  | dc, (v, st) :: r =>
+written as a final `n*` provided the record holds an explicit value. -/
+def emitToks (fmt : Bytes → Bytes) (flush : Bool) : Bool → Nat → Vals → List Bytes
+  | any, dc, [] => if flush ∧ any ∧ dc ≠ 0 then [starTok dc] else []
+  | any, dc, (v, st) :: r =>
     if st = .deck then
-      (if dc = 0 then [] else [starTok dc]) ++ valTok fmt v :: emitToks fmt flush 0 r
-    else emitToks fmt flush (dc + 1) r
+      (if dc = 0 then [] else [starTok dc]) ++ valTok fmt v :: emitToks fmt flush true 0 r
+    else emitToks fmt flush any (dc + 1) r
 
 def columns : Nat := 7
 
@@ -71,7 +72,7 @@ def layout (split : Bool) : Nat → List Bytes → Bytes
 
 /-- the record view the parser will see again: everything before the slash. -/
 def writtenRecordText (fmt : Bytes → Bytes) (flush split : Bool) (r : List Vals) : Bytes :=
-  layout split 0 (emitToks fmt flush 0 r.flatten) ++ [32]
+  layout split 0 (emitToks fmt flush false 0 r.flatten) ++ [32]
 
 /-- `DeckRecord::write`: bytes put on the stream. -/
 def writeRecord (fmt : Bytes → Bytes) (flush split : Bool) (r : List Vals) : Bytes :=
